@@ -663,6 +663,8 @@ class Run:
             'stats': dict(self.stats),
             'probes': dict(self.probes),
             'cov': sorted(map(repr, self.cov)),
+            'state_digests': sorted({e[-1] for e in self.log if e[1] in ('msg', 'create') and isinstance(e[-1], str)}),
+            'merges': sum(1 for e in self.log if e[1] == 'msg'),
             'fatal': self.fatal,
             'log': self.log if self.tr.get('keep_log') else None,
         }
